@@ -11,6 +11,45 @@ COMMON_NOTE = ("Trusted: Lean kernel; axioms limited to propext/Classical.choice
                "generators (distribution in the evidence file); Go toolchain and standard library. ")
 
 TEXT = {
+    "C01": {
+        "level": "Theorems (Props/C01.lean) for every signature scheme, root key and envelope of any length: verifyChain_iff / accept_iff (the chain walk accepts iff every "
+                 "link is signed by its predecessor's announced key and the proof matches the last announced key), payload_injective / sealPayload_injective (the signed bytes "
+                 "bind every field), accepted_is_issued and its corollaries unissued_link_rejected / foreign_proof_rejected / wrong_secret_rejected under an explicit "
+                 "unforgeability hypothesis, built_tokens_verify (every build/append/seal history verifies). Tied by CHAIN cases: 24 kinds of structural mutation of library-built "
+                 "token families decided by the Lean chain walk, which computes the signed payloads itself, with stdlib ed25519 as oracle.",
+        "note": COMMON_NOTE + "Modelled, not verified: ed25519 (oracle; unforgeability is a hypothesis of the theorem, not an axiom).",
+        "technique": "Lean 4 proof (induction over the block chain, symbolic forgery argument) + differential correspondence with an ed25519 oracle",
+    },
+    "C09": {
+        "level": "Theorems (Props/C09.lean): seal_keeps_blocks, seal_same_content, seal_revocation_same, seal_verifies, append_sealed_fails, seal_sealed_fails, "
+                 "seal_result_is_sealed, sealed_tamper_rejected (explicit unforgeability hypothesis), reload_identity_partial with a proved counterexample for the missing "
+                 "length condition. Tied by sealed/unsealed twins (verification, 4-content Authorize panel, revocation ids, Append/Seal refusal, before and after "
+                 "Serialize/Unmarshal) and seal-focused CHAIN mutations.",
+        "note": COMMON_NOTE + "Same cryptographic hypotheses as C01.",
+        "technique": "Lean 4 proof (envelope algebra + wire round trip) + differential correspondence + twin witness search",
+    },
+    "C16": {
+        "level": "Theorems (Props/C16.lean): derive_keeps_rootKeyId and rootKeyId_invariant over all derivation histories (append / seal / reload), build_reports_id, "
+                 "selectKey_none / selectKey_some_ok / selectKey_some_absent / selectKey_ignores_default (exactly the key registered under the token's id, never the default, "
+                 "never another id), acceptWithKeys_uses_selected; pinned witnesses pinned_append_drops_id / pinned_seal_drops_id (D12). Tied by derivation histories reading "
+                 "RootKeyID() after every step and by key-lookup CHAIN cases over 7 map/default scenarios.",
+        "note": COMMON_NOTE + "ed25519 as oracle.",
+        "technique": "Lean 4 proof (invariant over derivation histories, decision logic stated outright) + differential correspondence",
+    },
+    "C17": {
+        "level": "Theorems (Props/C17.lean): revids_count, revid_is_block_signature, derive_revids, derive_keeps_LibWF, revids_prefix over all derivation histories, "
+                 "revids_distinct_conditional (under explicit hypotheses on the scheme and distinct seeds). Tied by family histories reading RevocationIds() after every "
+                 "operation, the Lean wire decoder finding the same signatures in Serialize(), and global uniqueness per signing event across the run.",
+        "note": COMMON_NOTE + "Uniqueness is conditional on stated hypotheses about ed25519 and entropy.",
+        "technique": "Lean 4 proof (List.IsPrefix invariant over histories) + differential correspondence + global uniqueness search",
+    },
+    "C20": {
+        "level": "Theorems (Props/C20.lean) for every read script (any chunking, error with or after the last bytes): short_source_fails, build/append_reports_entropy_failure, "
+                 "enough_source_succeeds, build/append_key_from_delivered, draw_consumes_32; pinned witness pinned_short_source_panics (D14). Tied by the COMPLETE fault grid "
+                 "3 operations x 32 failure points x 6 reader behaviours plus success scripts, each compared with the model and checked against stdlib ed25519.",
+        "note": COMMON_NOTE + "Modelled, not verified: stdlib GenerateKey's reading discipline (io.ReadFull of 32 bytes).",
+        "technique": "Lean 4 proof (induction over read scripts) + exhaustive fault-grid correspondence",
+    },
     "C07": {
         "level": "Theorems (Props/C07.lean): varint/field-list/term/predicate/rule/block round trips of an independent protobuf model written from the published schema, "
                  "operator-code tables mutually inverse with the published enum numbering, symInsert_resolves / prefix stability, buildBlock_resolves and "
